@@ -76,11 +76,22 @@ pub fn verify<T: AsRef<[u8]>>(
         #[allow(clippy::arithmetic_side_effects)] // path_length_from_key checks
         let height = parent + 1;
 
-        let subtree_size = 1u64 << height;
+        // A subtree of 2^64 leaves cannot be complete in a tree whose leaf count is a
+        // `u64`, so the stable part of the path ends here.
+        let Some(subtree_size) = u32::try_from(height)
+            .ok()
+            .and_then(|height| 1u64.checked_shl(height))
+        else {
+            break
+        };
         #[allow(clippy::arithmetic_side_effects)] // floor(a / b) * b <= a
         let subtree_start_index = proof_index / subtree_size * subtree_size;
-        #[allow(clippy::arithmetic_side_effects)]
-        let subtree_end_index = subtree_start_index + subtree_size - 1;
+        #[allow(clippy::arithmetic_side_effects)] // subtree_size >= 2
+        let Some(subtree_end_index) = subtree_start_index.checked_add(subtree_size - 1)
+        else {
+            // The subtree would end beyond the largest possible leaf index.
+            break
+        };
 
         if subtree_end_index >= num_leaves {
             break
